@@ -54,18 +54,19 @@ type Req struct {
 }
 
 type Resp struct {
-	Err       string   `json:"err,omitempty"` // error returned by Parse/Compile ("" = nil)
-	Faulty    bool     `json:"faulty"`        // module.Ast.Faulty (parse only; false if no module)
-	HasModule bool     `json:"hasmod"`
-	Diags     []Diag   `json:"diags,omitempty"`
-	Panic     string   `json:"panic,omitempty"` // a panic escaped Parse/Compile
-	PanicSite string   `json:"site,omitempty"`  // top-most frame inside the repository
-	Stack     string   `json:"stack,omitempty"`
-	Deps      []string `json:"deps,omitempty"`
-	RenderErr string   `json:"render,omitempty"`
-	Internal  bool     `json:"internal,omitempty"` // compile: error is a CompilerError (="Unerwarteter Fehler")
-	Lits      []LitV   `json:"lits,omitempty"`     // op "lits": literal nodes of the main module in visiting order
-	Mods      []string `json:"mods,omitempty"`     // op "parse" with WantMods: file names of all modules of the import closure
+	Err        string   `json:"err,omitempty"` // error returned by Parse/Compile ("" = nil)
+	Faulty     bool     `json:"faulty"`        // module.Ast.Faulty (parse only; false if no module)
+	HasModule  bool     `json:"hasmod"`
+	Diags      []Diag   `json:"diags,omitempty"`
+	Panic      string   `json:"panic,omitempty"` // a panic escaped Parse/Compile
+	PanicSite  string   `json:"site,omitempty"`  // top-most frame inside the repository
+	Stack      string   `json:"stack,omitempty"`
+	Deps       []string `json:"deps,omitempty"`
+	RenderErr  string   `json:"render,omitempty"`
+	Internal   bool     `json:"internal,omitempty"`   // compile: error is a CompilerError (="Unerwarteter Fehler")
+	Lits       []LitV   `json:"lits,omitempty"`       // op "lits": literal nodes of the main module in visiting order
+	FaultyMods []string `json:"faultymods,omitempty"` // op "parse": modules of the import closure (other than the main module) whose Ast.Faulty is set
+	Mods       []string `json:"mods,omitempty"`       // op "parse" with WantMods: file names of all modules of the import closure
 }
 
 // LitV is the value the parser assigned to one literal node.
@@ -202,6 +203,12 @@ func Handle(q *Req) (r Resp) {
 			}
 			sort.Strings(r.Mods)
 		}
+		for name, m := range mods {
+			if m != nil && m != mod && m.Ast != nil && m.Ast.Faulty {
+				r.FaultyMods = append(r.FaultyMods, name)
+			}
+		}
+		sort.Strings(r.FaultyMods)
 		if err != nil {
 			r.Err = err.Error()
 			if r.Err == "" {
